@@ -58,11 +58,17 @@ def package_src(cases):
     reg = []
     for i, c in enumerate(cases):
         n = "Model%d" % i
-        emb = {"struct": "", "embedded": "\tEmbBase\n", "embedded_ptr": "\t*EmbBase\n", "embedded_unexported": "\tembHidden\n"}[c["shape"]]
+        emb = {"struct": "", "embedded": "\tEmbBase\n", "embedded_ptr": "\t*EmbBase\n", "embedded_unexported": "\tembHidden\n",
+               "embedded_nested_otherfile": "\tAudited\n"}[c["shape"]]
         out.append("// %s is case %d.\n//\n// swagger:model %s\ntype %s struct {\n%s%s\tKeep string `json:\"keep\"`\n}\n" % (n, i, n, n, emb, field_src(c["f"])))
         reg.append('\t"%s": %s{},\n' % (n, n))
     out.append("// Registry of the annotated models.\nvar Registry = map[string]any{\n" + "".join(reg) + "}\n")
     return "\n".join(out)
+
+
+# a second file of the package: a struct that itself embeds a struct - embedded by models of the first file
+OTHER_FILE = ('package models16\n\n// Stamps is embedded by Audited.\ntype Stamps struct {\n\tRevision int `json:"revision"`\n\tCreatedAt string `json:"createdAt"`\n}\n\n'
+              '// Audited is embedded by models declared in another file.\ntype Audited struct {\n\tStamps\n\tAuthor string `json:"author"`\n}\n')
 
 
 def describe(c):
@@ -81,6 +87,7 @@ def check_c16(run):
     mod = run.scratch_module("gen", modname="scratch/gen")
     os.makedirs(os.path.join(mod, "models16")); os.makedirs(os.path.join(mod, "drv16"))
     open(os.path.join(mod, "models16", "types.go"), "w").write(package_src(cases))
+    open(os.path.join(mod, "models16", "audit.go"), "w").write(OTHER_FILE)
     shutil.copy(os.path.join(HARNESS, "drivers", "typesdrv", "main.go.txt"), os.path.join(mod, "drv16", "main.go"))
     b = run.sh(["go", "build", "-o", run.path("bin", "typesdrv"), "./drv16"], cwd=mod, check=False, timeout=1800)
     if b.returncode != 0:
